@@ -11,7 +11,8 @@ NOTE = ('Trusted: Verus/Z3, the weaver (rewrites listed per run in the evidence)
 SCOPE = (' Functions under contract for this property are listed per run in the evidence (coverage.functions_under_contract); '
          'parser-level coverage: DIMACS CNF, WCNF and GCNF parsers, the SAT solver log parser and all their tokens; ASCII and binary AIGER header, section readers, '
          'symbol table, comment, tokens and entry writers; BTOR2 tokens. Not under contract and not covered by this claim: the BTOR2 line parser (parser.rs) and '
-         'writer (btor2.rs), the whole-file drivers of AIGER (parse, write_aig, write_ordered_aig), the DIMACS writers.')
+         'writer (btor2.rs) and the DIMACS header writers (writeln!). For the BTOR2 line parser/writer a BOUNDED native stand-in (labelled bounded in the evidence, never counted '
+         'in obligations/discharged) runs the real crate on every input of a stated finite set under five read schedules and reports concrete failing inputs.')
 
 CLAIMED = {
     'C01': dict(cat='proof', ref='6/C01', text='Every reader, scanner, token and parser function under contract has a postcondition that mentions only the stream (ghost prophecy `full`, `fails`) and the cursor/line bookkeeping, never the read schedule; the source model admits every partition into reads, Interrupted results and fault positions, so the verified results are functions of the bytes alone. Fast paths (8-byte kernel) are proved equal to the byte-wise paths (Verus + Kani for all 2^64 words). mark is part of the view and proved stable across refills.' + SCOPE,
@@ -59,7 +60,7 @@ for p in props:
         'thorough_cmd': './check %s --tier thorough' % p['id'],
         'evidence_file': '/verif/evidence/%s.json' % p['id'],
         'replay_cmd_template': './check --replay {path}',
-        'engine': 'verus-weave' + ('+kani-overlay' if 'Kani' in c['tech'] else ''),
+        'engine': 'verus-weave' + ('+kani-overlay' if 'Kani' in c['tech'] else '') + ('+native-standin(bounded)' if p['id'] in ('C01', 'C03', 'C04', 'C05', 'C08', 'C09') else ''),
         'level_claimed': {'category': c['cat'], 'text': c['text'], 'design_ref': c['ref']},
         'level_note': c['note'],
         'technique': c['tech'],
@@ -77,6 +78,8 @@ m = {
          'kind_free_text': 'syn-based extraction of real function bodies from /repo on every run, contracts woven in, single-file Verus runs per unit'},
         {'name': 'kani-overlay', 'path': '/verif/vp/kani.py + /verif/kani', 'serves_properties': ['C13', 'C14', 'C15', 'C01'],
          'kind_free_text': 'scratch copy of /repo with appended #[cfg(kani)] harness modules; complete (loop-free / fully unwound) harnesses; counterexamples replayed natively'},
+        {'name': 'native-standin', 'path': '/verif/standin', 'serves_properties': ['C01', 'C03', 'C04', 'C05', 'C08', 'C09'],
+         'kind_free_text': 'BOUNDED stand-in for the BTOR2 line parser/writer only (outside the weaver): the real crates built from the working tree, run on all token sequences up to a stated length, curated documents with all prefixes/substitutions and seeded sequences, under five read schedules and a fault at every offset; never the deciding engine of a proof claim'},
     ],
     'checks': checks,
     'not_applicable': [{'property_id': p['id'], 'reason': 'not claimed: no function this property depends on is under contract yet (DESIGN.md section 0.4)'}
